@@ -7,6 +7,7 @@
 -/
 import Std.Data.String.ToInt
 import Prov.Json
+import Prov.Lemmas.Iso
 import Prov.Lemmas.NsMgr
 
 namespace Prov.C01
@@ -81,6 +82,12 @@ theorem c01_datetime (h : Heap) (c : Nat) (m : NsMgr) (std : StdNames h c) (t : 
   refine ⟨{ value := .val (.lit t.iso (some q) none), flt := none }, ?_, ?_⟩
   · simp [encodeJsonValue, Heap.decodeJsonValue, JVal.get?, hq, hu, h1, h2, jsonPyStr, jsonFloatHint]
   · simp [autoLiteral, hp, parseXsd, hiso]
+
+/-- … and that lexical fact is a theorem for every valid date-time (`parseIso_iso`): no assumption is left -/
+theorem c01_datetime_valid (h : Heap) (c : Nat) (m : NsMgr) (std : StdNames h c) (t : DateTime) (hv : ValidDT t) :
+    ∃ dv, h.decodeJsonValue c (encodeJsonValue (.dt t)) = .ok dv ∧
+      (autoLiteral m dv.value dv.flt).2 = .ok (.dt t) :=
+  c01_datetime h c m std t (parseIso_iso t hv)
 
 /-- **URI value** -/
 theorem c01_uri (h : Heap) (c : Nat) (m : NsMgr) (std : StdNames h c) (u : String) :
